@@ -1200,7 +1200,7 @@ func (in *Interp) branch(c *Term) bool {
 		s.push()
 		s.assert(mkNot(c))
 		rF = s.check()
-		if rF == resSat {
+		if rF == resSat && !s.modelCostly {
 			mF = s.model()
 		}
 		s.pop(1)
@@ -1211,14 +1211,14 @@ func (in *Interp) branch(c *Term) bool {
 		s.push()
 		s.assert(c)
 		rT = s.check()
-		if rT == resSat {
+		if rT == resSat && !s.modelCostly {
 			mT = s.model()
 		}
 	default:
 		s.push()
 		s.assert(mkNot(c))
 		rF = s.check()
-		if rF == resSat {
+		if rF == resSat && !s.modelCostly {
 			mF = s.model()
 		}
 		s.pop(1)
@@ -1227,7 +1227,7 @@ func (in *Interp) branch(c *Term) bool {
 		rT = resSat
 		if rF != resUnsat {
 			rT = s.check()
-			if rT == resSat {
+			if rT == resSat && !s.modelCostly {
 				mT = s.model()
 			}
 		}
@@ -1303,7 +1303,7 @@ func (in *Interp) assume(c *Term, checkSat bool) {
 			}
 			if r == resUnknown {
 				in.run.inconclusive = true
-			} else {
+			} else if !s.modelCostly {
 				in.run.model = s.model()
 			}
 		}
